@@ -6,7 +6,7 @@ import numpy as np
 import jax
 import jax.numpy as jp
 
-from verif.contracts.common import (law, smt_custom, Obligation, Result, Sym, sym_call, Interp, Z3Alg, RingAlg,
+from verif.contracts.common import (law, smt_custom, smt_prove, Obligation, Result, Sym, sym_call, Interp, Z3Alg, RingAlg,
                                     eqs, sum_sq, side_conditions, witness_arrays, flat_scalars, PROVED, REFUTED)
 from verif.contracts import cuts
 from verif.specs import sx
@@ -129,6 +129,42 @@ def obligations(tier):
   add(law('C09/from_to/rotates', 'brax.math:from_to',
           'unit v1, v2 with 1 + v1.v2 >= 1e-6: q = from_to(v1,v2) is unit and rotate(v1, q) = v2 (|rot|^2 = 2w > 0 so the norm is defined)',
           ft_law, {'v1': (3,), 'v2': (3,)}, units=('v1', 'v2'), backend='ring', ring_setup=ft_setup))
+
+  # antiparallel pairs (the `w < 1e-6` fallback): v2 = -v1 along every lattice direction of the property's quantifier ([-3,3]^3): from_to is defined (the fallback
+  # axis is not the zero vector), unit, and turns v1 into -v1.  One variable (the normalisation t with t^2 |k|^2 = 1) per direction: exact reals, decided by z3.
+  def ft_antiparallel():
+    def run():
+      import z3, itertools, math as pymath
+      dirs = set()
+      for k in itertools.product(range(-3, 4), repeat=3):
+        if k == (0, 0, 0):
+          continue
+        g = pymath.gcd(pymath.gcd(abs(k[0]), abs(k[1])), abs(k[2]))
+        dirs.add(tuple(c // g for c in k))
+      n = 0
+      for k in sorted(dirs):
+        A = Z3Alg()
+        t = A.var('t')
+        kk = sum(c * c for c in k)
+        v1 = np.array([t * c for c in k], dtype=object)
+        v2 = np.array([-(t * c) for c in k], dtype=object)
+        q = sym_call(Interp(A), math.from_to, Sym(v1), Sym(v2))
+        rv = sym_call(Interp(A), math.rotate, Sym(v1), Sym(np.asarray(q, dtype=object)))
+        goal = side_conditions(A) + [sum_sq(A, list(q)) == 1] + [rv[i] == v2[i] for i in range(3)]
+        r = smt_prove(A, [t > 0, t * t * kk == 1], goal, timeout_s=30)
+        n += 1
+        if r.verdict != PROVED:
+          if r.verdict == REFUTED:
+            u = np.asarray(k, dtype=float) / np.sqrt(kk)
+            got = np.asarray(math.rotate(jp.asarray(u), math.from_to(jp.asarray(u), jp.asarray(-u))))
+            r.replay = {'reproduced': bool(not np.all(np.isfinite(got)) or np.max(np.abs(got + u)) > 1e-6), 'v1': u.tolist(), 'v2': (-u).tolist(), 'rotate(v1, from_to(v1, v2))': got.tolist()}
+          r.detail = 'direction %s: %s' % (k, r.detail)
+          r.witness = {'direction': list(k)}
+          return r
+      return Result(PROVED, 'all %d lattice directions: from_to(v, -v) defined, unit, rotates v to -v' % n, stats={'queries': n})
+    return Obligation('C09/from_to/antiparallel[lattice]', 'brax.math:from_to', 'v2 = -v1 (the antiparallel fallback) for v1 along EVERY direction of the integer lattice [-3,3]^3, normalised exactly: '
+                      'every denominator is non-zero (the fallback axis is not the zero vector), the result is a unit quaternion and rotate(v1, from_to(v1, v2)) = v2', run, backend='smt', budget=600)
+  add(ft_antiparallel())
 
   # ---- Euler angles -----------------------------------------------------------------------------------
   def euler_args(v):
